@@ -266,15 +266,25 @@ end boundsfold
 section lens
 variable {β : Type}
 
+theorem foldl_len (ls : List (List β)) (a : Nat) :
+    ls.foldl (fun i l => i + l.length) a = a + ls.flatten.length := by
+  induction ls generalizing a with
+  | nil => simp
+  | cons l ls ih => simp [ih, Nat.add_assoc]
+
 theorem sumLen_eq (ls : List (List β)) : sumLen ls = ls.flatten.length := by
-  induction ls with
-  | nil => rfl
-  | cons l ls ih => simp [sumLen, ih]
+  simp [sumLen, foldl_len]
+
+theorem foldl_len2 (ps : List (List (List β))) (a : Nat) :
+    ps.foldl (fun i p => i + sumLen p) a = a + (ps.map List.flatten).flatten.length := by
+  induction ps generalizing a with
+  | nil => simp
+  | cons p ps ih =>
+    rw [List.foldl_cons, ih, sumLen_eq]
+    simp [Nat.add_assoc]
 
 theorem sumLen2_eq (ps : List (List (List β))) : sumLen2 ps = (ps.map List.flatten).flatten.length := by
-  induction ps with
-  | nil => rfl
-  | cons p ps ih => simp [sumLen2, ih, sumLen_eq]
+  simp [sumLen2, foldl_len2]
 
 end lens
 
